@@ -84,7 +84,7 @@ def framing_tasks(quick: bool, scale: float) -> Iterator[dict[str, Any]]:
     tuples = sorted(FR.size_tuples(bound), key=lambda s: -(sum(s) + 4 * len(s)))
     for sizes in tuples:
         yield {"fn": "vlib.tasks.c16_framing:exhaustive", "args": {"sizes": sizes}, "_kind": "framing-ex", "_timeout": 900}
-    n_s, n_p = (3000, 240) if quick else (60000, 3000)
+    n_s, n_p = (3000, 240) if quick else (20000, 1000)
     n_s, n_p = max(26, int(n_s * scale)), max(6, int(n_p * scale))
     per = 250 if quick else 1000
     for j in range(0, n_s, per):
@@ -104,7 +104,7 @@ def witness_of(t: dict[str, Any], ev: dict[str, Any]) -> dict[str, Any]:
 def run(ctx: common.Ctx) -> None:
     quick = ctx.tier == "quick"
     scale = float(os.environ.get("VERIF_SCALE", "1"))
-    n_seq = max(8, int((200 if quick else 4000) * scale))
+    n_seq = max(8, int((200 if quick else 1000) * scale))
     stop_reps = 1 if quick else 4
     ctx.rule = ("(a) seeded fault sequence = 1-4 hostile client behaviours (catalogue of %d, first fault round-robin over the catalogue) "
                 "interleaved with edits/checks against a real daemon whose fault-free baseline (status, check, recheck) was verified "
@@ -235,8 +235,8 @@ def run(ctx: common.Ctx) -> None:
     ctx.extra["part_b_nontrivial"] = n_b_nontriv
     # floors at roughly 35-45 % of what the unchanged tree yields (quick: ~480 + ~2950 distinct non-trivial, ~86 000 evaluations)
     full = scale >= 1
-    ctx.floor_nontrivial = n_seq + ((1000 if quick else 20000) if full else 0)
-    ctx.floor_evaluations = n_seq + ((40000 if quick else 600000) if full else 0)
+    ctx.floor_nontrivial = n_seq + ((1000 if quick else 10000) if full else 0)
+    ctx.floor_evaluations = n_seq + ((40000 if quick else 250000) if full else 0)
     if n_a_nontriv < n_seq:
         ctx.inconc("part (a) decided too few fault probes")
         ctx.floor_nontrivial = 10 ** 9
